@@ -9,7 +9,6 @@
 //! to the wall reading.
 
 use std::collections::{HashMap, VecDeque};
-use std::panic::{catch_unwind, AssertUnwindSafe};
 use std::time::Duration;
 
 use datacake_crdt::verif::{set_wall_clock, MAX_CLOCK_DRIFT};
@@ -98,20 +97,15 @@ enum Outcome {
 
 fn do_call(clock: &mut HLCTimestamp, wall: Duration, call: Call) -> Outcome {
     set_wall_clock(Some(wall + DATACAKE_EPOCH));
-    let res = catch_unwind(AssertUnwindSafe(|| match call {
+    let res = vkit::quiet::catch(|| match call {
         Call::Send => clock.send(),
         Call::Recv(m) => clock.recv(&m),
-    }));
+    });
     set_wall_clock(None);
     match res {
         Ok(Ok(v)) => Outcome::Ok(v),
         Ok(Err(e)) => Outcome::Err(format!("{e:?}")),
-        Err(p) => Outcome::Panic(
-            p.downcast_ref::<String>()
-                .cloned()
-                .or_else(|| p.downcast_ref::<&str>().map(|s| s.to_string()))
-                .unwrap_or_else(|| "panic".into()),
-        ),
+        Err(msg) => Outcome::Panic(msg),
     }
 }
 
